@@ -127,7 +127,7 @@ theorem nodeStep_balIn {env a nd child r} (h : nodeStep env a nd child = some r)
 
 theorem nodeStep_balOut {env a nd child r} (h : nodeStep env a nd child = some r) (hi : balOut nd) : balOut r.nd := by
   unfold balOut at *
-  nstep h <;> (try (simp_all; done)) <;> (try (simp_all; omega)) <;> (cases hk : nd.kind <;> simp_all <;> omega)
+  nstep h <;> (try (simp_all; done)) <;> (try (simp_all; omega)) <;> (cases hk : nd.kind <;> simp_all [exitOk] <;> omega)
 
 @[simp] theorem closeIn_kind (c : Nd) : (closeIn c).kind = c.kind := by unfold closeIn; split <;> rfl
 @[simp] theorem closeIn_inq (c : Nd) : (closeIn c).inq = c.inq := by unfold closeIn; split <;> rfl
